@@ -135,6 +135,10 @@ def getItem (st : St) (r : Ref) : Option Target :=
         if r.name ∈ baseNames then some (.base r.name)
         else (firstIn st r.name (st.imps cur)).map Target.cls
 
+/-- `self._imported_namespaces[current_namespace].append(self.namespaces[import_name])` -/
+def addImp (s : St) (cur name : Ns) : St :=
+  { s with imps := upd s.imps cur (s.imps cur ++ [name]) }
+
 /-- `_new_import` for one import statement; `load` is "load that file with its
 namespace entered" (`metamodel_from_file(import_file_name, metamodel=self)`). -/
 def newImport (load : Ns → St → Except Err St) (st : St) (imp : Ns) : Except Err St :=
@@ -142,13 +146,11 @@ def newImport (load : Ns → St → Except Err St) (st : St) (imp : Ns) : Except
   | [] => .error .nostack
   | cur :: _ =>
     let name := absImport cur imp
-    let fin : St → Except Err St := fun s =>
-      .ok { s with imps := upd s.imps cur (s.imps cur ++ [name]) }
-    if (st.nss name).isSome then fin st
+    if (st.nss name).isSome then .ok (addImp st cur name)
     else
       match load name (enter st name) with
       | .error e => .error e
-      | .ok s => fin (leave s)
+      | .ok s => .ok (addImp (leave s) cur name)
 
 def importAll (load : Ns → St → Except Err St) : List Ns → St → Except Err St
   | [], st => .ok st
@@ -181,6 +183,10 @@ def resolveRefs (st : St) (ns : Ns) : List Ref → Except Err (List Target)
       | .error e => .error e
       | .ok ts => .ok (t :: ts)
 
+def logRes (st : St) (e : ResEntry) : St := { st with resolved := st.resolved ++ [e] }
+
+def logOpen (st : St) (ns : Ns) : St := { st with opened := st.opened ++ [ns] }
+
 /-- second pass of one grammar file (`_resolve_rule_refs`, `_resolve_cls_refs`):
 every reference of every rule goes through `__getitem__` while the file's
 namespace is on top of the stack. -/
@@ -194,20 +200,21 @@ def secondPass (st : St) : List Rule → Except Err St
       | some (.cls c) =>
         match resolveRefs st cur r.refs with
         | .error e => .error e
-        | .ok ts =>
-          secondPass { st with resolved := st.resolved ++ [⟨c, cur, anc, r, ts⟩] } rs
+        | .ok ts => secondPass (logRes st ⟨c, cur, anc, r, ts⟩) rs
       | _ => .error (.unexisting cur ⟨none, r.name⟩)
 
 /-- `metamodel_from_file(file of ns, metamodel=self)` with `ns` entered. -/
 def loadFile (fs : FS) : Nat → Ns → St → Except Err St
-  | 0, _, _ => .error .fuel
-  | fuel + 1, ns, st =>
+  | fuel, ns, st =>
     match fs ns with
     | none => .error (.missing ns)
     | some f =>
-      match importAll (loadFile fs fuel) f.imports { st with opened := st.opened ++ [ns] } with
-      | .error e => .error e
-      | .ok s => secondPass (createAll s f.rules) f.rules
+      match fuel with
+      | 0 => .error .fuel
+      | fuel + 1 =>
+        match importAll (loadFile fs fuel) f.imports (logOpen st ns) with
+        | .error e => .error e
+        | .ok s => secondPass (createAll s f.rules) f.rules
 
 /-- `metamodel_from_file(root_path/main.tx)`: `__init__` enters the namespace of
 the main file (its base name) and never leaves it. -/
